@@ -3,7 +3,7 @@
 (* WebSocket connection (the off-reader part of ServerConn.tla, data driven).     *)
 (* Events: reset(cap) ; arrive(n, id, kind, notify, exit) ; invoked(n, gauge) ;   *)
 (* resp(id, ec) ; silence ; release(n) ; probe(after, accepted) ; not_started(n) ;*)
-(* on_error(kind) ; end.                                                          *)
+(* on_error(kind) ; other_conn(ec) ; end.                                         *)
 (* Judged:                                                                        *)
 (*   cap        never more handlers running than the cap (invoked needs a free    *)
 (*              permit among the handlers the harness still holds parked)         *)
@@ -72,6 +72,8 @@ Step ==
             /\ (IF ~E.accepted THEN Flag("slot_never_freed") ELSE TRUE)
             /\ lingering' = lingering \ {E.after} /\ UNCHANGED <<cap, reqs, running, released, answered, startedSet>>
        [] E.ev = "on_error" -> Keep
+       \* an off-reader request on ANOTHER connection of the same server while this one is saturated: the cap is per connection
+       [] E.ev = "other_conn" -> (IF E.ec # 0 THEN Flag("cap_shared_between_connections") ELSE TRUE) /\ Keep
        [] E.ev = "end" ->
             /\ (IF \E i \in 1..Len(reqs) : ~reqs[i].notify /\ reqs[i].id \notin answered THEN Flag("unanswered") ELSE TRUE)
             /\ (IF \E i \in 1..Len(reqs) : reqs[i].notify /\ reqs[i].kind = "off" /\ cap > 0 /\ reqs[i].n \in startedSet THEN Flag("saturated_notify_ran") ELSE TRUE)
